@@ -519,6 +519,36 @@ func init() {
 				s.emitGet(doc, p)
 			}
 		}
+		// whole containers as the located node (all conversions, incl. the *UseNode ones, see every child):
+		// sizes around the 16-element chunks of linkedNodes / linkedPairs
+		for _, n := range []int{0, 1, 15, 16, 17, 32, 33, 48, 49, 64, 100, 257} {
+			var sa, so strings.Builder
+			sa.WriteByte('[')
+			so.WriteByte('{')
+			for i := 0; i < n; i++ {
+				if i > 0 {
+					sa.WriteByte(',')
+					so.WriteByte(',')
+				}
+				sa.WriteString(`{"id":` + itoa(i) + `}`)
+				so.WriteString(`"k` + itoa(i) + `":{"id":` + itoa(i) + `}`)
+			}
+			sa.WriteByte(']')
+			so.WriteByte('}')
+			// the large ones with two option sets only (plain, and ValidateJSON+ConcurrentRead): every entry
+			// point takes all views of all children
+			mask := "ff"
+			if n >= 64 {
+				mask = "21"
+			}
+			for _, c := range [][2]string{
+				{sa.String(), "-"}, {so.String(), "-"},
+				{`{"a":` + sa.String() + `,"o":` + so.String() + `}`, "k:" + hexArg([]byte("a"))},
+				{`[0,` + so.String() + `,` + sa.String() + `]`, "i:1"},
+			} {
+				s.g.Emit("get", mask, hexArg([]byte(c[0])), c[1])
+			}
+		}
 		// wide arrays / objects: index and key positions around 16 and 256
 		for _, n := range []int{15, 16, 17, 18, 31, 32, 33, 255, 256, 257, 300} {
 			var sa, so strings.Builder
